@@ -263,6 +263,11 @@ pub fn run(ctx: &mut Ctx) {
         for cut in [31usize, 33, 30, 16, 48, 0, 64, 1, 63] {
             shared_secret_case(ctx, "key:real-point-cut-elsewhere", CoseKey::EC2 { crv: EC2Curve::P256, x: xy[..cut].to_vec(), y: EC2Y::Value(xy[cut..].to_vec()) });
         }
+        // another curve's label on the COMPRESSED form of a real P-256 point
+        for crv in [EC2Curve::P384, EC2Curve::P521, EC2Curve::P256K] {
+            shared_secret_case(ctx, "key:other-curve-compressed", CoseKey::EC2 { crv: crv.clone(), x: x.clone(), y: EC2Y::SignBit(odd) });
+            shared_secret_case(ctx, "key:other-curve-compressed", CoseKey::EC2 { crv, x: x.clone(), y: EC2Y::SignBit(!odd) });
+        }
         for crv in [EC2Curve::P384, EC2Curve::P521, EC2Curve::P256K] {
             shared_secret_case(ctx, "key:other-curve", CoseKey::EC2 { crv, x: x.clone(), y: EC2Y::Value(y.clone()) });
         }
